@@ -152,6 +152,19 @@ func targetVariants(d ocispec.Descriptor) map[string]ocispec.Descriptor {
 	return v
 }
 
+// variants of the descriptor presented for verification
+func artifactVariants(d ocispec.Descriptor) []ocispec.Descriptor {
+	a := d
+	a.MediaType = ""
+	b := d
+	b.Size = 0
+	c := d
+	c.MediaType, c.Size = "", d.Size+1
+	e := d
+	e.Annotations = nil
+	return []ocispec.Descriptor{a, b, c, e}
+}
+
 // envelopes builds the envelope pool for a base descriptor.
 func (w *world) envelopes(c *common.Ctx, d ocispec.Descriptor) []envCase {
 	var out []envCase
@@ -440,6 +453,16 @@ func Run(c *common.Ctx) error {
 				count(e, in, o)
 				c.Count("level=" + lv.name)
 				c.Count("required=" + rn)
+				// the descriptor PRESENTED for verification may itself be unusual (a Resolve that leaves
+				// fields empty, another size): the signed target must still equal it field by field
+				if rn == "none" || rn == "subset" {
+					for _, av := range artifactVariants(w.art) {
+						in, o := runOCI(w, e, lv, av, requiredMaps[rn])
+						c.Emit(in, o)
+						count(e, in, o)
+						c.Count("artifact-variant")
+					}
+				}
 			}
 		}
 	}
